@@ -63,7 +63,7 @@ def flo_script(case):
                 far = v[1] if v[1] in ("next", "me") else "F%d" % v[1]
                 L.append("      go %s%s" % (far, (" if " + " and ".join(flo_need(n) for n in v[2])) if v[2] else ""))
     L += ["", "  framer obs be active first o", "    frame o", "      do fb obs",
-          "      go fin if recurred >= %d" % case["nticks"], "    frame fin", "      bid stop all", ""]
+          ""]
     return "\n".join(L)
 
 
@@ -210,6 +210,8 @@ def gen_lit_time(rng, period):
         v = P * rng.choice([1, 2, 3, 5]) + rng.choice([-1, 1]) * P / rng.choice([2, 4, 8])   # off grid
     elif r < 8:
         v = Fraction(rng.choice([0, 1, 2, 3]))
+    elif period in DYADIC:
+        v = Fraction(rng.randrange(0, 4096), 1024)                  # binary-exact, off the tick grid
     else:
         v = Fraction(rng.randrange(0, 4000), 1000)
     if v < 0:
@@ -305,8 +307,24 @@ class CHECK(core.Check):
                "None, unreachable under the Skedder) are not modelled; on decimal periods only the Float instantiation "
                "is compared, the exact-time tick formula is proved for exact time only"]
     TECHNIQUE = "Lean 4 theorems over all programs and stamp sequences (induction on runs) + differential correspondence on generated FloScript"
-    LEVEL_TEXT = ""
-    LEVEL_NOTE = ""
+    LEVEL_TEXT = ("Full proof on the model for every number type (Int and Float included), every program and every sequence "
+                  "of store stamps: C11_clocks_since_outline_change (at every evaluation of transition conditions the elapsed "
+                  "seen = now - stamp of the last outline change, start / transition / forced re-entry, and the recurred seen "
+                  "= iterations since), C11_leaves_iff_a_condition_holds (the frame is left iff some transition's needs hold "
+                  "on exactly those values, through the first such), C11_timeout_fires_first and C11_repeat_fires_first "
+                  "(left at the first evaluation with elapsed >= T resp. recurred >= N, not earlier; repeat: exactly max(1,N) "
+                  "iterations), C11_verbs_desugar / C11_resolved_timeout_frame (timeout v = go next if elapsed >= abs v, "
+                  "repeat v = go next if recurred >= int(abs v)). Exact time (Int, Skedder stamps 0,P,2P,…, every P>0, every "
+                  "T): C11_elapsed_is_k_periods, C11_timeout_tick_exact, C11_first_multiple_is_ceil (transition tick = "
+                  "max(1, ceil(T/P)) after entry). No _partial theorem. Tied to the code by building and running generated "
+                  "FloScript with the real Builder/Skedder at binary-exact and decimal tick periods (Float instantiation "
+                  "compared bit for bit; exact instantiation on binary-exact grids).")
+    LEVEL_NOTE = ("Trusted: Lean kernel; axioms propext, Classical.choice, Quot.sound; hand transcription of framing.py "
+                  "(restartTimer/updateTimer/restartCounter/updateCounter, enter, segue, precur), building.py "
+                  "(buildTimeout/buildRepeat), needing.py Need.Check at tolerance 0, skedding.py stamp accumulation, "
+                  "validated only by the correspondence runs; Lean Float = IEEE binary64 = CPython float; one flat framer "
+                  "(no nested frames, auxiliaries, framer periods, TypeError branch of updateTimer); the ceil(T/P) tick formula "
+                  "is proved in exact time only — at decimal periods the implementation follows the Float instantiation.")
 
     def generate(self, rng, n, tier):
         for i in range(n):
@@ -349,7 +367,7 @@ class CHECK(core.Check):
 
         def observe(st):
             rows.append((int(rd.active.name[1:]), rc.value == 0, el.value, rc.value, st.stamp))
-        flob.run(sk, obs=observe)
+        flob.run(sk, obs=observe, nticks=case["nticks"])
         out = [" ".join("%d%s:%s:%d:%s" % (a, "*" if e else ".", bits(x), r, bits(now)) for a, e, x, r, now in rows)]
         if exact_ok(case):
             def units(x):
